@@ -60,6 +60,18 @@ def loadOpenpose (sc : Scalar S) (isZero : S → Bool) (sizes : List Nat) (frame
     let conf : A3 S := (List.range n).map fun f => (List.range people).map fun p => (List.range totalPoints).map fun k => (cell f p k).2.2
     some (mkBody .numpy isZero fps data conf (some (deriveMissing isZero data conf)))
 
+/-! ## the loops of `load_openpose`, literally -/
+
+/-- the inner loop for one component: `for i, k in enumerate(range(0, len(numbers), 3)): row[keypoint_id + i] = numbers[k : k + 3]` -/
+def writeTriples {α : Type} (row : List α) (off : Nat) : List α → List α
+  | [] => row
+  | t :: ts => writeTriples (row.set off t) (off + 1) ts
+
+/-- one person: `keypoint_id = 0; for component in header.components: …; keypoint_id += len(component.points)` on a row of `total_points` zeros -/
+def loopPerson (zero : S × S × S) (sizes : List Nat) (person : List (List S)) : List (S × S × S) :=
+  ((person.zip sizes).foldl (fun (acc : List (S × S × S) × Nat) ns => (writeTriples acc.1 acc.2 (triplesOf ns.1), acc.2 + ns.2)) (List.replicate sizes.sum zero, 0)).1
+
+
 /-! ## `get_frame_id` -/
 
 def isDigit (c : Char) : Bool := '0' ≤ c ∧ c ≤ '9'
